@@ -581,6 +581,14 @@ func runLevelOwnership(c *Ctx) {
 							first := v.Args[0].String()
 							ok = first == e.Loc || isEmptyVal(v.Args[0]) || v.Args[0].Op == "list" || v.Args[0].Op == "makeslice" || v.Args[0].Op == "append" && isEmptyVal(v.Args[0].Args[0])
 						}
+						// the result of a function that returns a newly allocated slice on every path
+						if !ok {
+							if st, isSt := e.Instr.(*ssa.Store); isSt {
+								if call, isCall := st.Val.(*ssa.Call); isCall && call.Call.StaticCallee() != nil && sliceNotFresh(call, map[ssa.Value]bool{}, 0) == "" {
+									ok = true
+								}
+							}
+						}
 						if !ok {
 							bad = append(bad, fmt.Sprintf("%s := %s at %s: built on a slice owned by somebody else", e.Loc, v, e.Pos))
 						}
